@@ -126,6 +126,16 @@ class Detector:
 # replay on the installed library: Gaussian blobs, numpy vs chunked dask
 
 
+def _tb(exc):
+    """the innermost frames of an exception met under symbolic execution (SYMX_DEBUG only)"""
+    import os
+    import traceback
+
+    if not os.environ.get("SYMX_DEBUG"):
+        return ""
+    return " @ " + " <- ".join(f"{f.filename.rsplit('/', 1)[-1]}:{f.lineno}:{f.name}" for f in reversed(traceback.extract_tb(exc.__traceback__)[-6:]))
+
+
 def replay_chunks(kind, N, chunks, sigma=1.0, boundary=None):
     """numpy vs chunked dask on the installed library: (a) point particles on the very image size / chunking / scale of the counterexample
     (single-chunk axes enlarged to 16), (b) Gaussian blobs on a 4x enlarged copy"""
@@ -307,7 +317,7 @@ def sec_chunks(rec, kind="log", N=(12, 6, 5), chunks=((6, 6), (6,), (5,)), n_par
         h = hyps + [p.condition()]
         if not p.ok:
             ok, det_ = rp({})
-            rec.fact(f"{tag}/path{pi}/runs", False, key=f"C20/{kind}/raises", detail={"exc": repr(p.exc)[:300], **det_}, reproduced=ok)
+            rec.fact(f"{tag}/path{pi}/runs", False, key=f"C20/{kind}/raises", detail={"exc": repr(p.exc)[:300] + _tb(p.exc), **det_}, reproduced=ok)
             continue
         n_ok += 1
         mol = p.result
@@ -664,7 +674,8 @@ def sec_template(rec, shape=(4, 2, 6), K=3, patches=None):
         lands.k += 1
         ok = np.shape(img) == n_blk and np.shape(tmpl) == tuple(shape)
         lands.bad = lands.bad or not ok
-        return (pat == k).astype(np.float32)
+        # an array of the engine (exact values): the matcher may look the arg-max table up with whole index arrays derived from the symbolic positions
+        return to_symarray((pat == k).astype(np.float32))
 
     PC.ncc_landscape_no_pad = lands
     PC.find_maxima = lambda img, dist, thr: to_symarray([q])
@@ -679,7 +690,7 @@ def sec_template(rec, shape=(4, 2, 6), K=3, patches=None):
     for pi, p in enumerate(explore(pick, assumptions=hyps, max_paths=400)):
         h = hyps + [p.condition()]
         if not p.ok:
-            rec.fact(f"{tag}/pick/path{pi}/runs", False, key="C20/tm/pick-raises", detail={"exc": repr(p.exc)[:300]}, reproduced=replay_template({})[0])
+            rec.fact(f"{tag}/pick/path{pi}/runs", False, key="C20/tm/pick-raises", detail={"exc": repr(p.exc)[:300] + _tb(p.exc)}, reproduced=replay_template({})[0])
             continue
         (pos, qs, feat), badshape = p.result
         rec.fact(f"{tag}/pick/path{pi}/one-landscape-per-template-on-the-block", not badshape, key="C20/tm/landscape-args", detail={}, reproduced=None)
